@@ -785,13 +785,39 @@ func evalUpdateExpression(node *UpdateExpression, env *Environment) Object {
 		return newError(node.TokenLiteral() + " expression must have at least one action")
 	}
 
+	// every right-hand side of a SET action reads the item as it was before the update,
+	// so all of them are evaluated before the first action is applied
+	setValues := map[*ActionExpression]Object{}
+
 	for _, act := range node.Expressions {
 		action, ok := act.(*ActionExpression)
 		if !ok {
 			return newError("invalid infix action")
 		}
 
-		result := evalAction(action, env)
+		if action.Token.Type != SET {
+			continue
+		}
+
+		val := EvalUpdate(action.Right, env)
+		if isError(val) {
+			return val
+		}
+
+		setValues[action] = snapshotObject(val)
+	}
+
+	for _, act := range node.Expressions {
+		action, _ := act.(*ActionExpression)
+
+		var result Object
+
+		if val, ok := setValues[action]; ok {
+			result = evalActionSetValue(action, val, env)
+		} else {
+			result = evalAction(action, env)
+		}
+
 		if isError(result) {
 			return result
 		}
@@ -802,11 +828,33 @@ func evalUpdateExpression(node *UpdateExpression, env *Environment) Object {
 	return UNDEFINED
 }
 
+// snapshotObject copies the value so that later actions of the same expression, which
+// modify objects in place, do not change it
+func snapshotObject(obj Object) Object {
+	if obj == nil || isUndefined(obj) {
+		return obj
+	}
+
+	item := obj.ToDynamoDB()
+
+	copied, err := MapToObject(&item)
+	if err != nil {
+		return obj
+	}
+
+	return copied
+}
+
 func evalActionSet(node *ActionExpression, env *Environment) Object {
 	val := EvalUpdate(node.Right, env)
 	if isError(val) {
 		return val
 	}
+
+	return evalActionSetValue(node, val, env)
+}
+
+func evalActionSetValue(node *ActionExpression, val Object, env *Environment) Object {
 
 	id, ok := node.Left.(*Identifier)
 	if ok {
